@@ -16,6 +16,11 @@ of the source address the code uses as the key of the per-IP bucket set (the ful
 address, …), `TakeMsg`, the roll-back inside `TakeMsg` and `ReleaseMsg` use the same one.  The harness reads
 the three key functions off the bucket table of the real `limits.Group` for every address it generates and
 reports `C11/key-law` when they differ; `C11_key_law_needed` shows the hypothesis cannot be dropped.
+(3) lifecycle of the remote delivery: `RemKeys.Lawful` — the remote target derives the keys it hands to the limits
+from the spelling of the recipient / sender domain separately at every place; the key of `ReleaseDest` (after a
+failed MAIL and in `Close`) is that of `TakeDest`, the key of `ReleaseMsg` in `Close` that of `TakeMsg` in `Start`.
+Observed on the real target for every generated spelling (U-label, A-label, other case, trailing dot, NFD);
+`C11/key-law` when they differ; `C11_dest_key_law_needed` shows the hypothesis cannot be dropped.
 -/
 namespace MaddyVerif.Limits
 
@@ -503,23 +508,26 @@ theorem C11_session_returns_all (script : List (SessOp × Bool)) (s : Sess) (ok 
     obtain ⟨s', h3⟩ := ih (s.op ok' op).1
     exact ⟨s', by simp [Sess.run, h1, h3]⟩
 
-def remOut (r : Rem) : Out :=
-  { msg := if r.started then [(r.ip, r.dom)] else [], dest := if r.started then r.conns else [] }
+def remOut (k : RemKeys) (r : Rem) : Out :=
+  { msg := if r.started then [(r.ip, k.src r.dom)] else [],
+    dest := if r.started then r.conns.map (·.2) else [] }
 
-theorem track_relDests (ok : Bool) (m : List (Nat × Nat)) (l : List Nat) (rest : List Call) :
-    track ok { msg := m, dest := l } (l.map Call.relDest ++ rest) = track ok { msg := m, dest := [] } rest := by
+theorem track_relDests (ok : Bool) (m : List (Nat × Nat)) (l : List (Nat × Nat)) (rest : List Call) :
+    track ok { msg := m, dest := l.map (·.2) } (l.map (fun p => Call.relDest p.2) ++ rest)
+      = track ok { msg := m, dest := [] } rest := by
   induction l with
   | nil => rfl
   | cons d l ih => simp [track, ih]
 
-theorem rem_op_track (r : Rem) (ok : Bool) (op : RemOp) :
-    track ok (remOut r) (r.op ok op).2 = some (remOut (r.op ok op).1) := by
+theorem rem_op_track (k : RemKeys) (hk : k.Lawful) (r : Rem) (ok : Bool) (op : RemOp) :
+    track ok (remOut k r) (r.op k ok op).2 = some (remOut k (r.op k ok op).1) := by
   cases op with
   | start =>
     cases hs : r.started <;> cases ok <;> simp [Rem.op, remOut, track, hs]
   | addRcpt d co mo rc =>
-    by_cases hc : d ∈ r.conns <;> cases hs : r.started <;> cases co <;> cases ok <;> cases mo <;> cases rc <;>
-      simp [Rem.op, Rem.rcpt, remOut, track, hs, hc]
+    obtain ⟨hu, hc', _⟩ := hk d
+    cases hc : r.hasConn (k.conn d) <;> cases hs : r.started <;> cases co <;> cases ok <;> cases mo <;> cases rc <;>
+      simp [Rem.op, Rem.rcpt, remOut, track, hs, hc, hu, hc']
   | body =>
     simp [Rem.op, track]
   | close =>
@@ -527,36 +535,40 @@ theorem rem_op_track (r : Rem) (ok : Bool) (op : RemOp) :
     · simp [Rem.op, remOut, track, hs]
     · simp only [Rem.op, hs, remOut, Bool.not_true, Bool.false_eq_true, if_false, if_true]
       rw [track_relDests]
-      simp [track]
+      simp [track, (hk r.dom).2.2]
 
 /-- **Remote delivery.**  For every sequence of `Start` / `AddRcpt` (connection reused, connection failure,
 `TakeDest` time-out, MAIL FROM refused by the next hop or the connection lost at MAIL, RCPT accepted / refused /
 failed with the connection lost — 421, drop, time-out — on a fresh or a reused connection) / `Body` /
-`Commit`/`Abort`, every release is for a permit the delivery took under the same key and still holds. -/
-theorem C11_remote_disciplined (script : List (RemOp × Bool)) (r : Rem) :
-    ∃ r', Rem.run r (remOut r) script = some (r', remOut r') := by
+`Commit`/`Abort`, for every spelling of the sender and recipient domains and every key derivation `k` that
+releases under the key it takes under (`RemKeys.Lawful`; any grouping of spellings into keys, any grouping of
+spellings into `rd.connections` entries): every release is for a permit the delivery took under the same key
+and still holds. -/
+theorem C11_remote_disciplined (k : RemKeys) (hk : k.Lawful) (script : List (RemOp × Bool)) (r : Rem) :
+    ∃ r', Rem.run k r (remOut k r) script = some (r', remOut k r') := by
   induction script generalizing r with
   | nil => exact ⟨r, rfl⟩
   | cons e rest ih =>
     obtain ⟨op, ok⟩ := e
-    have h1 := rem_op_track r ok op
-    obtain ⟨r', h3⟩ := ih (r.op ok op).1
+    have h1 := rem_op_track k hk r ok op
+    obtain ⟨r', h3⟩ := ih (r.op k ok op).1
     exact ⟨r', by simp [Rem.run, h1, h3]⟩
 
 /-- After `Commit`/`Abort` (`Close`) the delivery holds nothing, whatever happened before — in particular
-whatever the next hop did with any RCPT (first or later one of a connection) or with DATA. -/
-theorem C11_remote_returns_all (script : List (RemOp × Bool)) (r : Rem) (ok : Bool) :
-    ∃ r', Rem.run r (remOut r) (script ++ [(RemOp.close, ok)]) = some (r', {}) := by
+whatever the next hop did with any RCPT (first or later one of a connection) or with DATA, and however the
+domains were spelled. -/
+theorem C11_remote_returns_all (k : RemKeys) (hk : k.Lawful) (script : List (RemOp × Bool)) (r : Rem) (ok : Bool) :
+    ∃ r', Rem.run k r (remOut k r) (script ++ [(RemOp.close, ok)]) = some (r', {}) := by
   induction script generalizing r with
   | nil =>
-    have h1 := rem_op_track r ok .close
-    refine ⟨(r.op ok .close).1, ?_⟩
+    have h1 := rem_op_track k hk r ok .close
+    refine ⟨(r.op k ok .close).1, ?_⟩
     simp only [List.nil_append, Rem.run, h1]
     cases hs : r.started <;> simp [Rem.op, remOut, hs]
   | cons e rest ih =>
     obtain ⟨op, ok'⟩ := e
-    have h1 := rem_op_track r ok' op
-    obtain ⟨r', h3⟩ := ih (r.op ok' op).1
+    have h1 := rem_op_track k hk r ok' op
+    obtain ⟨r', h3⟩ := ih (r.op k ok' op).1
     exact ⟨r', by simp [Rem.run, h1, h3]⟩
 
 /-- The discipline tracked by `track` is the one the interleaving model demands: a call accepted by `track`
@@ -694,10 +706,10 @@ example : Sess.run { ip := 3, deferred := false } {} [(.mail 1 (some 1) false, t
 
 /-- A remote delivery: one recipient domain accepted, one whose MAIL FROM is refused by the next hop (its
 destination permit is returned at once), one whose destination limit timed out; then Close. -/
-example : (Rem.run { ip := 1, dom := 7 } {}
+example : (Rem.run RemKeys.same { ip := 1, dom := 7 } {}
       [(.start, true), (.addRcpt 2 true true, true), (.addRcpt 3 true false, true), (.addRcpt 4 true true, false)]).map (·.2)
       = some { msg := [(1, 7)], dest := [2] } ∧
-    (Rem.run { ip := 1, dom := 7 } {}
+    (Rem.run RemKeys.same { ip := 1, dom := 7 } {}
       [(.start, true), (.addRcpt 2 true true, true), (.addRcpt 3 true false, true), (.addRcpt 4 true true, false),
        (.close, true)]).map (·.2) = some {} := by
   decide
@@ -706,15 +718,70 @@ example : (Rem.run { ip := 1, dom := 7 } {}
 delivery keeps holding the destination permit (the entry stays in `rd.connections`); a further recipient of
 the domain reuses the dead connection (lost again, no second permit), another domain is accepted, its second
 RCPT is lost; `Body`; `Close` returns everything. -/
-example : (Rem.run { ip := 1, dom := 7 } {}
+example : (Rem.run RemKeys.same { ip := 1, dom := 7 } {}
       [(.start, true), (.addRcpt 2 true true .lost, true), (.addRcpt 2 true true .lost, true),
        (.addRcpt 3 true true, true), (.addRcpt 3 true true .lost, true), (.addRcpt 2 true true .refused, true),
        (.body, true)]).map (·.2)
       = some { msg := [(1, 7)], dest := [3, 2] } ∧
-    (Rem.run { ip := 1, dom := 7 } {}
+    (Rem.run RemKeys.same { ip := 1, dom := 7 } {}
       [(.start, true), (.addRcpt 2 true true .lost, true), (.addRcpt 2 true true .lost, true),
        (.addRcpt 3 true true, true), (.addRcpt 3 true true .lost, true), (.addRcpt 2 true true .refused, true),
        (.body, true), (.close, true)]).map (·.2) = some {} := by
   decide
+
+/-! ### key derivation of the remote target (domain spellings) -/
+
+theorem RemKeys.same_lawful : RemKeys.same.Lawful := fun _ => ⟨rfl, rfl, rfl⟩
+
+/-- A lawful derivation that is not the identity: spelling ids `100·b + v` (variant `v` of base domain `b`:
+U-label, A-label, other case, trailing dot …) all normalised to the first spelling of the base at every place
+that touches the limits, while `rd.connections` stays keyed by the spelling. -/
+def exRemKeys : RemKeys :=
+  { conn := fun d => d, take := fun d => d / 100 * 100, undo := fun d => d / 100 * 100,
+    close := fun d => d / 100 * 100, src := fun d => d / 100 * 100, srcRel := fun d => d / 100 * 100 }
+
+theorem exRemKeys_lawful : exRemKeys.Lawful := fun _ => ⟨rfl, rfl, rfl⟩
+
+/-- The hypotheses with such a derivation: sender `102`, recipients spelled `100` (U-label), `101` (A-label: a
+second connection and a second permit of the SAME bucket `100`), `100` again (connection reused), `203` with MAIL
+refused (permit returned at once); `Close` returns both permits of bucket `100`. -/
+example : (Rem.run exRemKeys { ip := 1, dom := 102 } {}
+      [(.start, true), (.addRcpt 100 true true, true), (.addRcpt 101 true true, true), (.addRcpt 100 true true, true),
+       (.addRcpt 203 true false, true)]).map (·.2)
+      = some { msg := [(1, 100)], dest := [100, 100] } ∧
+    (Rem.run exRemKeys { ip := 1, dom := 102 } {}
+      [(.start, true), (.addRcpt 100 true true, true), (.addRcpt 101 true true, true), (.addRcpt 100 true true, true),
+       (.addRcpt 203 true false, true), (.close, true)]).map (·.2) = some {} := by
+  decide
+
+/-- A remote target that records another form of the recipient domain in the connection than the one it took
+the destination limit under (`TakeDest(domain)` with the U-label, `ReleaseDest(conn.domain)` with the A-label:
+spelling `d` ↦ key `d + 1000`). -/
+def exBadRemKeys : RemKeys := { RemKeys.same with close := fun d => d + 1000 }
+
+/-- `destination concurrency 1`. -/
+def exCfgDst : Cfg := { all := [], ip := [], src := [], dst := [⟨.sem, 1⟩], reap := -1, maxB := 5 }
+
+/-- The Group calls of a command script (every take succeeds), in order. -/
+def Rem.calls (k : RemKeys) : Rem → List RemOp → List Call
+  | _, [] => []
+  | r, op :: rest => (r.op k true op).2 ++ Rem.calls k (r.op k true op).1 rest
+
+/-- **The destination key law cannot be dropped.**  With a `Close` key that differs from the `TakeDest` key the
+simplest delivery — Start, one recipient accepted, Commit — is not disciplined (`ReleaseDest` for something that
+was never taken: `BucketSet.Release` ignores the unknown key), and its Group calls, executed on the limits model
+by one goroutine, leave the destination semaphore of the domain occupied and its bucket in use after the
+delivery ended: the next `TakeDest` for that domain times out, for ever. -/
+theorem C11_dest_key_law_needed :
+    ¬ exBadRemKeys.Lawful ∧
+    Rem.run exBadRemKeys { ip := 1, dom := 7 } {} [(.start, true), (.addRcpt 2 true true, true), (.close, true)] = none ∧
+    Rem.calls exBadRemKeys { ip := 1, dom := 7 } [.start, .addRcpt 2 true true, .close]
+      = [.takeMsg 1 7, .takeDest 2, .relDest 1002, .relMsg 1 7] ∧
+    (let s := (Rem.calls exBadRemKeys { ip := 1, dom := 7 } [.start, .addRcpt 2 true true, .close]).foldl
+        (call exCfgDst 0) (step exCfgDst (St.init exCfgDst) .spawn)
+     s.tasks.map (·.pc) = [.idle] ∧
+      lenOf s.g (.b .dst 2 0) = 1 ∧ lenOf s.g (.use .dst 2) = 1 ∧
+      ((call exCfgDst 0 s (.takeDest 2)).tasks.map (·.res)) = [.timeout]) := by
+  refine ⟨fun h => absurd (h 0).2.1 (by decide), by decide, by decide, by decide⟩
 
 end MaddyVerif.Limits
